@@ -33,8 +33,11 @@ type MuxStream struct {
 	// CoOpen >= 2: the reading end's logical connection is not opened during set-up but by that many
 	// tasks calling Open for the id concurrently; the reader uses the handle task CoPick obtained (the
 	// writer waits until then). Whichever handle a caller got, it is the connection with that id.
-	CoOpen int `json:"co_open,omitempty"`
-	CoPick int `json:"co_pick,omitempty"`
+	// Lag: the reader does not read until the writer has written everything (at most the configured queue
+	// length of frames, so the receiver "keeps up with the configured queue length")
+	Lag    bool `json:"lag,omitempty"`
+	CoOpen int  `json:"co_open,omitempty"`
+	CoPick int  `json:"co_pick,omitempty"`
 }
 
 type MuxShared struct {
@@ -76,8 +79,11 @@ type MuxW struct {
 	// the first payload is written before B has opened the connection; B opens it and only then unblocks
 	// its reader, so the payload must still arrive (what WithBlockedRead is for)
 	LateOpen bool `json:"late_open,omitempty"`
-	Closers  int  `json:"closers"` // concurrent closers of the final orderly close
-	CloseB   bool `json:"close_b"` // final close on end B instead of A
+	// NeverUnblock (with Blocked, C11): end B is closed without ever having been unblocked; its Close
+	// must return all the same and fail everything blocked on that end
+	NeverUnblock bool `json:"never_unblock,omitempty"`
+	Closers      int  `json:"closers"` // concurrent closers of the final orderly close
+	CloseB       bool `json:"close_b"` // final close on end B instead of A
 }
 
 var muxSizes = []int{0, 1, 7, 8, 9, 100, 1000, 4095, 4096, 4097, 65536}
@@ -86,7 +92,20 @@ var muxBigSizes = []int{muxMaxPayload - 1, muxMaxPayload, muxMaxPayload + 1, 2*m
 func muxGen(focus string) func(rng *rand.Rand, conf string, idx int) any {
 	return func(rng *rand.Rand, conf string, idx int) any {
 		w := &MuxW{Focus: focus, Closers: 1 + rng.Intn(3), CloseB: rng.Intn(2) == 0, Blocked: rng.Intn(4) == 0}
+		if focus == "C10" && rng.Intn(25) == 0 {
+			// a long configured queue (beyond the default of 256) and a reader that lags behind by hundreds of frames
+			lw := &MuxW{Focus: focus, Closers: 1, Qlen: pick(rng, []int{400, 512, 1024}), IDs: []int{1, 2}}
+			st := MuxStream{ID: 1, Dir: rng.Intn(2), Lag: true}
+			for n, cnt := 0, 260+rng.Intn(lw.Qlen-260); n < cnt; n++ {
+				st.Sizes = append(st.Sizes, 1+rng.Intn(24))
+			}
+			lw.Streams = []MuxStream{st, {ID: 2, Dir: rng.Intn(2), Sizes: []int{5, 0, 9}}}
+			return lw
+		}
 		w.LateOpen = w.Blocked && focus == "C10" && rng.Intn(2) == 0
+		if w.Blocked && focus == "C11" && rng.Intn(3) == 0 {
+			w.NeverUnblock, w.CloseB = true, true
+		}
 		w.Qlen = pick(rng, []int{1, 2, 3, 4, 8, 16, 64, 256})
 		k := 1 + rng.Intn(6)
 		for _, id := range rng.Perm(9)[:k] {
@@ -201,6 +220,9 @@ func muxGen(focus string) func(rng *rand.Rand, conf string, idx int) any {
 				w.Faults = append(w.Faults, f)
 			}
 		}
+		if w.NeverUnblock {
+			w.Faults = nil // a blocked end notices nothing: only its own Close is examined in such a run
+		}
 		return w
 	}
 }
@@ -256,8 +278,11 @@ func muxRun(t *testing.T, wl any, sc SchedCfg) *Result {
 				}
 			}
 		}
-		if w.Blocked && len(late) == 0 {
+		if w.Blocked && len(late) == 0 && !w.NeverUnblock {
 			e.Task("unblock", func() { mb.Unblock(); mb.Unblock() })
+		}
+		if w.NeverUnblock {
+			e.S.Probe("C11.blocked-end-closed-without-unblock")
 		}
 		if w.Blocked {
 			e.S.Probe("C10.reader-blocked-until-unblock")
@@ -495,7 +520,7 @@ func muxRun(t *testing.T, wl any, sc SchedCfg) *Result {
 						reopened[k] = true
 						e.S.Probe("C10.logical-connection-closed-and-reopened")
 					}
-					e.S.ParkOwned("rgate:"+k, "reader-"+k, func() bool { return !withheld[k] })
+					e.S.ParkOwned("rgate:"+k, "reader-"+k, func() bool { return !withheld[k] && (!st.Lag || sd.wdone) })
 					n, err := rc.Read(buf)
 					if err != nil {
 						sd.rerr = err
